@@ -702,6 +702,7 @@ func mixupCase(engine string, rounds, clients int) map[string]any {
 	}
 	defer s.Stop()
 	ok := stack.Behaviour{Kind: "ok", Status: 200, Headers: [][2]string{{"Content-Type", "application/json"}}, Body: []byte(`{"ok":true}`)}
+	vlib.Breadcrumb(map[string]any{"kind": "mixup", "engine": engine, "rounds": rounds, "clients": clients, "what": "backend answers with status 099, then bursts of concurrent numbered requests to two endpoints with base paths /a/v1 and /b"})
 	send := func(id string) {
 		stack.Do(s.Addr, stack.Request("POST", "/olla/proxy/v1/x/"+id+"?n="+id, s.Addr, [][2]string{{"Content-Type", "application/json"}}, []byte(`{}`), false), 5*time.Second)
 	}
